@@ -1,12 +1,90 @@
 /- Driver operations of property C02 (ops are named "c02.<name>"). Core + Lean.Data.Json only. -/
 import Reamber.Util.Json
+import Reamber.Model.SM
+import Reamber.Spec.SM
 
 open Lean Reamber.J
 
 namespace Reamber.C02
 
-def handle (op : String) (_j : Json) : Except String Json :=
+open Reamber.SM Reamber.Timing
+
+def strToJson (s : Str) : Json := Json.str (String.ofList s)
+
+def noteToJson (n : Note) : Json :=
+  Json.arr #[Json.str n.kind.toString, natToJson n.col, ratToJson n.time, ratToJson n.length]
+
+def chartToJson (c : Chart) : Json :=
+  obj [("chart_type", strToJson c.chartType), ("description", strToJson c.description),
+       ("difficulty", strToJson c.difficulty), ("difficulty_val", intToJson c.difficultyVal),
+       ("groove", listToJson ratToJson c.groove),
+       ("bpms", listToJson (fun p => Json.arr #[ratToJson p.1, ratToJson p.2]) c.bpms),
+       ("notes", listToJson noteToJson c.notes)]
+
+def headerToJson (h : Header) : Json :=
+  obj [("strs", obj (stringTags.map (fun ta => (String.ofList ta.2, strToJson (h.str ta.2))))),
+       ("offset", optToJson ratToJson h.offset),
+       ("sample_start", ratToJson h.sampleStart), ("sample_length", ratToJson h.sampleLength),
+       ("selectable", Json.bool h.selectable)]
+
+def rerrToJson : RErr → Json
+  | .py e => errJson e.toString
+  | .stops => errJson "stops"
+
+def tnoteToJson (n : TNote) : Json :=
+  Json.arr #[Json.str n.kind.toString, natToJson n.col, ratToJson n.time, ratToJson n.length]
+
+def dnoteToJson (n : DNote) : Json :=
+  Json.arr #[Json.str n.kind.toString, natToJson n.col, ratToJson n.beat, optToJson ratToJson n.endBeat]
+
+def dchartToJson (timed : Option (Rat × List (Rat × Rat))) (c : DChart) : Json :=
+  obj [("chart_type", strToJson c.chartType), ("description", strToJson c.description),
+       ("difficulty", strToJson c.difficulty), ("meter", optToJson intToJson c.meter),
+       ("radar", optToJson (listToJson ratToJson) c.radar),
+       ("well_bracketed", Json.bool c.wellBracketed), ("rows_mult4", Json.bool c.rowsMult4),
+       ("max_row_len", natToJson c.maxRowLen),
+       ("measures", listToJson (listToJson strToJson) c.measures),
+       ("beats", listToJson dnoteToJson c.notes),
+       ("notes", match timed with
+         | some (o, b) => listToJson tnoteToJson (timedNotes o b c)
+         | none => Json.null)]
+
+def denotedToJson (d : Denoted) : Json :=
+  let timed : Option (Rat × List (Rat × Rat)) :=
+    match d.offsetSec, d.bpms with
+    | some o, some b => if tempoOk b then some (o, b) else none
+    | _, _ => none
+  obj [("offset_sec", optToJson ratToJson d.offsetSec),
+       ("bpms", optToJson (listToJson (fun p => Json.arr #[ratToJson p.1, ratToJson p.2])) d.bpms),
+       ("stops_present", Json.bool d.stopsPresent), ("stops_empty", Json.bool d.stopsEmpty),
+       ("charts_well_formed", Json.bool d.chartsWellFormed),
+       ("tempo_ok", Json.bool (match d.bpms with
+         | some b => tempoOk b
+         | none => false)),
+       ("tempo_on_grid", Json.bool (match d.bpms with
+         | some b => tempoOnGrid b
+         | none => false)),
+       ("tempo_times", match timed with
+         | some (o, b) => listToJson ratToJson (tempoTimes o b)
+         | none => Json.null),
+       ("values", listToJson (listToJson strToJson) d.values),
+       ("charts", listToJson (dchartToJson timed) d.charts)]
+
+def handle (op : String) (j : Json) : Except String Json := do
   match op with
+  | "c02.read" =>
+    let t ← getStr j "text"
+    match SM.read t.toList with
+    | .ok ms => .ok (okJson (obj [("hdr", headerToJson ms.hdr), ("charts", listToJson chartToJson ms.charts)]))
+    | .error e => .ok (rerrToJson e)
+  | "c02.denote" =>
+    let t ← getStr j "text"
+    .ok (okJson (optToJson denotedToJson (denote t.toList)))
+  | "c02.parse_float" =>
+    let t ← getStr j "text"
+    match parseFloat t.toList with
+    | .ok q => .ok (okJson (ratToJson q))
+    | .error e => .ok (errJson e.toString)
   | _ => .error s!"unknown op {op}"
 
 end Reamber.C02
